@@ -25,6 +25,10 @@ def stepLine (d : DState) (op _obs : String) : DState × String :=
     match parseBlocks ws with
     | some bs => ({ d with s := { d.s with src := bs, term := if t == "err" then .err else .eof } }, "ok")
     | none => (d, "bad-op")
+  | "node" :: ws =>
+    match parseBlocks ws with
+    | some bs => ({ d with s := { d.s with later := d.s.later ++ [bs] } }, "ok")
+    | none => (d, "bad-op")
   | "skips" :: ws =>
     match ws.mapM String.toInt? with
     | some ks => ({ d with s := { d.s with skips := ks }, useSkip := true }, "ok")
